@@ -317,7 +317,7 @@ def check_value_flow(rep, facts, fb, we, rule='R12.6'):
             v = pl[3][0] if pl[0] == 'agg' and len(pl[3]) == 1 else ('unknown', 'shape')
             how = None
             x = v
-            if x[0] == 'call' and x[1] == 'core::convert::From::from' and len(x[2]) == 1:
+            if x[0] == 'call' and x[1] == 'core::convert::Into::into' and len(x[2]) == 1:
                 x = x[2][0]
                 how = 'From::from of '
             if x[0] == 'mem' and len(x[3]) == 1 and x[3][0][3] and not x[3][0][1] and x[3][0][2][0] == 'call' and \
